@@ -82,22 +82,33 @@ def engine_history(args):
     try:
         pol = impl_engine.policies_to_json(impl_engine.core_policy.policies) + gen_engine.random_policies(g)
         E.handle({"cmd": "policies", "policies": pol})
+        creators = ["create", "register", "deriveKey", "createKeyPair"]
+        followers = ["get", "getAttributes", "getAttributeList", "activate", "revoke", "destroy", "encrypt", "decrypt",
+                     "sign", "mac", "signatureVerify", "setAttribute", "modifyAttribute", "deleteAttribute"]
         for _ in range(length):
-            ln = g.line()
+            if g.p(0.25):
+                # a creating item followed, in the same batch, by items that name no object (ID placeholder paths)
+                k = g.ch([1, 1, 2])
+                ln = g.line(nitems=1 + k, ops=[g.ch(creators)] + [g.ch(followers) for _ in range(k)])
+                for it in ln["req"]["items"][1:]:
+                    it["uid"] = None
+            else:
+                ln = g.line()
             secrets |= canaries_of(ln)
             o = E.handle(ln)
             g.observe(ln, o)
             lines.append(ln)
+            # stored values are secrets too (also those of objects destroyed later)
+            for ob in E.dump()["objs"]:
+                if len(ob["value"]) >= 16:
+                    secrets.add(ob["value"])
             if isinstance(o, dict):
                 for r in o.get("results", []):
                     if r.get("msg"):
                         msgs.append(r["msg"])
                 if o.get("msg"):
                     msgs.append(o["msg"])
-        # stored values are secrets too
-        for ob in E.dump()["objs"]:
-            if len(ob["value"]) >= 16:
-                secrets.add(ob["value"])
+
     finally:
         root.removeHandler(cap)
         E.close()
